@@ -269,6 +269,15 @@ IsUnique(s) ==
     /\ Rec(<<"IsUnique", s, 0, "", 0>>)
     /\ UNCHANGED <<blk, hnd, frames, aborted>>
 
+\* Arc::ptr_eq / ArcBorrow::ptr_eq / ArcUnion::ptr_eq: two handles of one type name the same allocation
+PtrEq(s, t) ==
+    /\ On("PtrEq") /\ s # t
+    /\ hnd[s].k = hnd[t].k /\ hnd[s].k \in {"Arc", "Uni", "Bor", "Dyn"}
+    /\ hnd[s].k \in {"Arc", "Bor"} => blk[hnd[s].b].ty = blk[hnd[t].b].ty
+    /\ res' = [NoRes EXCEPT !.op = "PtrEq", !.s = s, !.verdict = IF hnd[s].b = hnd[t].b THEN "yes" ELSE "no"]
+    /\ Rec(<<"PtrEq", s, t, "", 0>>)
+    /\ UNCHANGED <<blk, hnd, frames, aborted>>
+
 \* Arc::try_unique / UniqueArc::try_from: Ok(UniqueArc) or Err(the same Arc)
 TryUnique(s, api) ==
     /\ On("TryUnique") /\ hnd[s].k = "Arc" /\ ~Locked(s)
@@ -392,6 +401,7 @@ NextLowest ==
           \/ Forget(s)
           \/ \E c \in ConvTable : Conv(c, s)
           \/ IsUnique(s)
+          \/ \E t \in Slots : PtrEq(s, t)
           \/ \E api \in {"try_unique", "try_from"} : TryUnique(s, api)
           \/ \E api \in {"get_mut", "get_unique"} : GetMut(s, api)
           \/ UqWrite(s)
